@@ -474,6 +474,23 @@ theorem ad_sp_after_failed_read (nbytes : Nat) (hn : 0 < nbytes) (c : AdCursor) 
   obtain ⟨c1, c2, h1, h2, _, h4⟩ := ad_sp_then_rw nbytes hn c.afterFailedRead ks k hk hin
   exact ⟨c.afterFailedRead, c1, c2, ad_rw_eof nbytes c hf, h1, h2, h4⟩
 
+/-- the same over the storage-less source (positions beyond any real buffer): after
+    `set_word_pos(k)` the next `read_word` returns bytes `[k*nbytes, (k+1)*nbytes)` and `word_pos`
+    then answers `k + 1`, for every `k` whose byte offset fits in a `u64` -/
+theorem advirt_sp_then_rw (nbytes : Nat) (hn : 0 < nbytes) (c : AdVirt) (k : Nat)
+    (hin : (k + 1) * nbytes < 2 ^ 64) :
+    ((c.setWordPos nbytes k).readWord nbytes).1 = (List.range nbytes).map (fun i => virtByte (k * nbytes + i)) ∧
+    ((c.setWordPos nbytes k).readWord nbytes).2.wordPos nbytes = k + 1 := by
+  have hk : k * nbytes < 2 ^ 64 := by rw [Nat.succ_mul] at hin; omega
+  have hk1 : k * nbytes + nbytes < 2 ^ 64 := by rw [Nat.succ_mul] at hin; exact hin
+  refine ⟨?_, ?_⟩
+  · simp only [AdVirt.setWordPos, AdVirt.readWord, Nat.mod_eq_of_lt hk]
+  · simp only [AdVirt.setWordPos, AdVirt.readWord, AdVirt.wordPos, Nat.mod_eq_of_lt hk, Nat.mod_eq_of_lt hk1]
+    have h2 : k * nbytes + nbytes + nbytes - 1 = (nbytes - 1) + nbytes * (k + 1) := by
+      rw [Nat.mul_comm, Nat.mul_succ]; omega
+    rw [h2, Nat.add_mul_div_left _ _ hn, Nat.div_eq_of_lt (by omega)]
+    omega
+
 /-- the bytes `rw` shows are the bytes the adapter reads from a fault-free source positioned at
     the same byte -/
 theorem ad_rw_is_readWord (nbytes : Nat) (c : AdCursor) (h : c.pos + nbytes ≤ c.data.length) :
